@@ -266,6 +266,7 @@ func (c *LocalReusableWorkflowCache) FindMetadata(spec string) (*ReusableWorkflo
 			return m, nil // Another goroutine already found (and reported) it
 		}
 		msg := strings.ReplaceAll(err.Error(), "\n", " ")
+		msg = strings.NewReplacer("\r", " ", "\u2028", " ", "\u2029", " ").Replace(msg) // YAML errors echo scalar values, which can contain other line breaks
 		return nil, fmt.Errorf("error while parsing reusable workflow %q: %s", spec, msg)
 	}
 
